@@ -44,6 +44,12 @@ func NewIdKeeper() IdKeeper {
 // update updates the IdKeeper's state regarding this bundle and sets this
 // bundle's sequence number.
 func (idk *IdKeeper) update(bndl *bpv7.Bundle) {
+	idk.updateUnless(bndl, nil)
+}
+
+// updateUnless acts like update, but skips sequence numbers whose resulting bundle ID is reported as taken. The
+// IdKeeper's state is kept in memory for a limited time only; a restart, at the latest, resets it.
+func (idk *IdKeeper) updateUnless(bndl *bpv7.Bundle, taken func(bpv7.BundleID) bool) {
 	var tpl = newIdTuple(bndl)
 
 	idk.mutex.Lock()
@@ -54,6 +60,10 @@ func (idk *IdKeeper) update(bndl *bpv7.Bundle) {
 	}
 
 	bndl.PrimaryBlock.CreationTimestamp[1] = idk.data[tpl]
+	for taken != nil && taken(bndl.ID()) {
+		idk.data[tpl] = idk.data[tpl] + 1
+		bndl.PrimaryBlock.CreationTimestamp[1] = idk.data[tpl]
+	}
 	idk.mutex.Unlock()
 
 	if idk.autoClean {
